@@ -28,6 +28,10 @@ class Inconclusive(Exception):
     pass
 
 
+class UnwindHit(Exception):
+    """a loop wants more iterations than the unwinding bound (only raised when the harness asked for such paths as exits)"""
+
+
 # ---------------------------------------------------------------- values
 class SInt:
     __slots__ = ("t", "bits", "signed")
@@ -52,6 +56,20 @@ class SBool:
 class SUnit:
     def __repr__(self):
         return "()"
+
+
+class SFloat:
+    """f64 at bit level: `bits` is a 64-bit vector (IEEE 754 binary64), comparisons go through z3's floating-point view of it"""
+    __slots__ = ("bits",)
+
+    def __init__(self, bits):
+        self.bits = bits
+
+    def fp(self):
+        return z3.fpBVToFP(self.bits, z3.Float64())
+
+    def __repr__(self):
+        return f"SFloat({z3.simplify(self.bits)})"
 
 
 class SAgg:
@@ -337,7 +355,11 @@ class Interp:
             if time.time() > self.deadline:
                 raise Inconclusive("kernel time budget exceeded")
             st = work.pop()
-            res = self.step_until_fork(st)
+            try:
+                res = self.step_until_fork(st)
+            except UnwindHit as u:
+                self.finish_path("unwind", st, None, str(u), self.where(st))
+                continue
             if res is None:
                 continue
             work.extend(res)
@@ -464,6 +486,8 @@ class Interp:
     def jump(self, st, fr, bb):
         fr.visits[bb] = fr.visits.get(bb, 0) + 1
         if fr.visits[bb] > self.unwind:
+            if getattr(self, "unwind_exits", False):
+                raise UnwindHit(f"more than {self.unwind} visits of {fr.fn.name} bb{bb}")
             raise Inconclusive(f"unwinding bound {self.unwind} exceeded at {fr.fn.name} bb{bb} (bound too small)")
         fr.bb, fr.idx = bb, 0
 
@@ -607,6 +631,10 @@ class Interp:
             else:
                 n = -(1 << (bits - 1)) if signed else 0
             return SInt(z3.BitVecVal(n, bits), bits, signed)
+        mf = re.fullmatch(r"(-?(?:\d[\d_]*)(?:\.\d+)?(?:[eE][+-]?\d+)?)_?f64", c)
+        if mf:
+            import struct
+            return SFloat(z3.BitVecVal(struct.unpack("<Q", struct.pack("<d", float(mf.group(1).replace("_", ""))))[0], 64))
         if c.startswith('b"'):
             return SAgg("bytes", "", {0: eval(c)})       # byte-string constant (fmt templates)
         if c.startswith('"'):
@@ -662,6 +690,8 @@ class Interp:
                 return SBool(z3.Not(a.t))
             if isinstance(a, SInt):
                 return SInt(-a.t if m.group(1) == "Neg" else ~a.t, a.bits, a.signed)
+            if isinstance(a, SFloat) and m.group(1) == "Neg":
+                return SFloat(a.bits ^ z3.BitVecVal(1 << 63, 64))
             raise Inconclusive(f"{m.group(1)} of {a}")
         if r.startswith("discriminant("):
             v = self.read(st, depth, parse_place(r[len("discriminant("):-1]))
@@ -745,6 +775,8 @@ class Interp:
         segs = [x for x in clean.split("::") if x]
         last = segs[-1]
         prev = segs[-2] if len(segs) > 1 else None
+        if prev is None and named and bare_variant(last) is not None:
+            prev = bare_variant(last)       # a struct-like variant printed without its enum path (imported variant)
         if prev in VARIANTS and last in VARIANTS[prev]:
             idx = VARIANTS[prev].index(last)
             f = dict(fields)
@@ -791,6 +823,12 @@ class Interp:
             t = {"Eq": a.t == b.t, "Ne": a.t != b.t, "BitAnd": z3.And(a.t, b.t), "BitOr": z3.Or(a.t, b.t), "BitXor": z3.Xor(a.t, b.t)}.get(op)
             if t is None:
                 raise Inconclusive(f"bool {op}")
+            return SBool(t)
+        if isinstance(a, SFloat) and isinstance(b, SFloat):
+            x, y = a.fp(), b.fp()
+            t = {"Lt": z3.fpLT(x, y), "Le": z3.fpLEQ(x, y), "Gt": z3.fpGT(x, y), "Ge": z3.fpGEQ(x, y), "Eq": z3.fpEQ(x, y), "Ne": z3.Not(z3.fpEQ(x, y))}.get(op)
+            if t is None:
+                raise Inconclusive(f"float {op}")
             return SBool(t)
         if not (isinstance(a, SInt) and isinstance(b, SInt)):
             raise Inconclusive(f"{op} on {a}, {b}")
